@@ -4,6 +4,7 @@
     it is tied to the code by the runloop correspondence unit. *)
 From Coq Require Import List ZArith Bool.
 From V Require Import Gen.Params RunLoop.Model RunLoop.Proofs.
+From V Require ConnIDs.Routing ConnIDs.ProofsRouting.
 Import ListNotations.
 Open Scope Z_scope.
 
@@ -134,16 +135,47 @@ Theorem C17_amplification_limited_silent : forall client sf ce a c, close_action
 Proof. exact amplification_limited_silent. Qed.
 Print Assumptions C17_amplification_limited_silent.
 
-(** the stand-in of a locally closed connection answers packet n (n-th after the close) iff n is a power of two *)
-Theorem C17_closed_conn_backoff : forall n, 0 < n < 2 ^ 32 ->
+(** the stand-in of a locally closed connection (closed_conn.go after the anti-amplification repair): the back-off
+    gate of this unit's model — a copy can only go out for packet n if n is a power of two — ... *)
+Theorem C17_closed_conn_gate : forall n, 0 < n < 2 ^ 32 ->
   (closed_reply n = true <-> exists k : nat, n = 2 ^ Z.of_nat k).
 Proof. exact closed_reply_pow2. Qed.
+Print Assumptions C17_closed_conn_gate.
+
+(** ... and the full rule, as modelled (with the byte budget) and tied to the code by the C16 unit (ConnIDs/Routing.v):
+    the packet delivered to a closedLocalConn is answered with a copy of the CONNECTION_CLOSE iff it is packet
+    1, 2, 4, 8, ... AND the copy stays within three times the bytes received for the closed connection;
+    the budget invariant sent <= 3 * received is kept by every delivery (RFC 9000 10.2.1). *)
+Module C17_cites_C16.
+Import V.ConnIDs.Routing.
+Theorem C17_closed_conn_backoff : forall s c j size,
+  hget c (rt_handlers s) = Some (HLocal j) ->
+  let l := match zget j (rt_locals s) with Some v => v | None => mkL 0 0 0 0 end in
+  0 <= l_cnt l -> l_cnt l + 1 < 4294967296 ->
+  let r := snd (rt_step (RDeliver c size) s) in
+  rr_kind r = 2 /\
+  (rr_sent r = 1 <-> (exists k : nat, l_cnt l + 1 = 2 ^ Z.of_nat k) /\
+                     l_sent l + l_psize l <= 3 * (l_recv l + size)) /\
+  (rr_sent r = 0 \/ rr_sent r = 1).
+Proof. exact V.ConnIDs.ProofsRouting.backoff_power_of_two. Qed.
 Print Assumptions C17_closed_conn_backoff.
+
+Theorem C17_closed_conn_budget : forall s c j size,
+  hget c (rt_handlers s) = Some (HLocal j) -> 0 <= size ->
+  let l := match zget j (rt_locals s) with Some v => v | None => mkL 0 0 0 0 end in
+  0 <= l_psize l -> l_sent l <= 3 * l_recv l ->
+  match zget j (rt_locals (fst (rt_step (RDeliver c size) s))) with
+  | Some l' => l_sent l' <= 3 * l_recv l' /\ l_psize l' = l_psize l
+  | None => False
+  end.
+Proof. exact V.ConnIDs.ProofsRouting.standin_amplification_step. Qed.
+Print Assumptions C17_closed_conn_budget.
+End C17_cites_C16.
 
 (** (d) ErrIdleTimeout after the handshake is raised only at
     now >= max(last packet received, first ack-eliciting packet sent after it) + max(idleTimeout, 3 PTO),
     the three read off the history; idleTimeout = min(Config.MaxIdleTimeout, peer's). *)
-Theorem C17_idle_not_early : forall s0 l now pto,
+Theorem C17_idle_not_early_history : forall s0 l now pto,
   0 <= lastRecv s0 -> firstAE s0 = 0 ->
   Forall (fun e => match e with EvRecv t | EvSentAE t => 0 < t | _ => True end) l ->
   closeErr (run s0 l) = None -> hsComplete (run s0 l) = true ->
@@ -151,7 +183,45 @@ Theorem C17_idle_not_early : forall s0 l now pto,
   Z.max (hist_lastRecv (lastRecv s0) l) (hist_firstAE 0 l)
     + Z.max (hist_idle (cf s0) (idleTimeout s0) l) (3 * pto) <= now.
 Proof. exact idle_not_early. Qed.
-Print Assumptions C17_idle_not_early.
+Print Assumptions C17_idle_not_early_history.
+
+(** "not much later", over all histories: with the handshake complete, no keep-alive due (off, or its PING
+    outstanding) and nothing else pending, the deadline the loop arms after the history IS that instant and the
+    wake-up at it closes with ErrIdleTimeout; with an ACK alarm / loss timer / pacing / keep-alive pending the
+    deadline is only earlier, never later. *)
+Theorem C17_idle_not_late_history : forall s0 l pto,
+  0 <= lastRecv s0 -> firstAE s0 = 0 -> timed l ->
+  let s := run s0 l in
+  let T := Z.max (hist_lastRecv (lastRecv s0) l) (hist_firstAE 0 l) + Z.max (hist_idle (cf s0) (idleTimeout s0) l) (3 * pto) in
+  closeErr s = None -> hsComplete s = true ->
+  (nextKA s pto = 0 -> pacing s = 0 ->
+     maybeResetTimer s pto 0 0 = T /\
+     closeErr (step s (EvWake (maybeResetTimer s pto 0 0) pto)) = Some {| ce_err := EIdle; ce_immediate := true |}) /\
+  (forall ack loss, sane s -> 0 <= pto -> maybeResetTimer s pto ack loss <= T).
+Proof. exact idle_not_late_history. Qed.
+Print Assumptions C17_idle_not_late_history.
+
+(** the own idle timer against RFC 9000 10.1's minimum of both advertised values: never shorter; longer only
+    when the peer advertised less than MinRemoteIdleTimeout = 5 s, and then by less than 5 s - peer's value
+    (an accepted deviation: by then the peer has silently closed; see notes/C17.md) *)
+Theorem C17_idle_excess_bounded : forall s adv, 0 < adv -> 0 <= c_maxIdleTimeout (cf s) ->
+  let own := idleTimeout (applyTP s (parse_idle adv) adv) in
+  let rfc := Z.min (c_maxIdleTimeout (cf s)) adv in
+  rfc <= own /\ own - rfc <= Z.max 0 (rl_MinRemoteIdleTimeout - adv) /\ own - rfc < rl_MinRemoteIdleTimeout /\
+  (rl_MinRemoteIdleTimeout <= adv -> own = rfc).
+Proof. exact idle_excess_bounded. Qed.
+Print Assumptions C17_idle_excess_bounded.
+
+Theorem C17_min_remote_idle_timeout_is_5s : rl_MinRemoteIdleTimeout = 5000000000.
+Proof. exact min_remote_idle_timeout_5s. Qed.
+Print Assumptions C17_min_remote_idle_timeout_is_5s.
+
+(** the excess is attained: own 30 s, peer 1 s: timer at 5 s, RFC 1 s *)
+Example C17_idle_excess_example :
+  idleTimeout (applyTP (init {| c_client := true; c_keepAlivePeriod := 0; c_maxIdleTimeout := 30000000000; c_hsIdleTimeout := 0 |} 1)
+                       (parse_idle 1000000000) 1000000000) = 5000000000.
+Proof. reflexivity. Qed.
+Print Assumptions C17_idle_excess_example.
 
 (** the deadline the loop arms after the handshake is never later than that instant, and is that instant when
     nothing else is pending; a wake-up at it declares the timeout *)
@@ -197,6 +267,34 @@ Proof.
   split; [exact ka_deadline|]. split; [exact ka_deadline_eq|]. split; [exact ka_wake_pings|exact keepalive_prevents_idle].
 Qed.
 Print Assumptions C17_keepalive_prevents_idle.
+
+(** keep-alive over ALL histories (any interleaving of receive / send / wake-up / block-mode / parameter events, no
+    close request): as long as every wake-up comes before lastPacketReceived + idleTimeout — the answers to the PINGs
+    keep arriving within the idle period — no timeout is ever declared; a PING answered within
+    idleTimeout - interval of its sending does arrive in that time; and the histories built from keep-alive rounds
+    are such histories. *)
+Theorem C17_keepalive_history :
+  (forall l s0, hsComplete s0 = true -> closeErr s0 = None -> no_close_requests l -> wakes_in_time s0 l ->
+     closeErr (run s0 l) = None /\ hsComplete (run s0 l) = true) /\
+  (forall lr interval idle r, r - (lr + interval) < idle - interval -> r < lr + idle) /\
+  (forall rs s, ka_state s -> rounds_ok s rs -> closeErr (run_rounds s rs) = None /\ ka_state (run_rounds s rs)).
+Proof. split; [exact no_idle_while_answered|]. split; [exact answer_in_time | exact keepalive_prevents_idle]. Qed.
+Print Assumptions C17_keepalive_history.
+
+(** non-vacuity: a history with interleaved sends, wake-ups and answers that satisfies the hypotheses *)
+Example C17_keepalive_history_example :
+  let s0 := step (step (init {| c_client := true; c_keepAlivePeriod := 4000; c_maxIdleTimeout := 10000; c_hsIdleTimeout := 5000 |} 1000)
+                       (EvHsComplete 30000 30000)) (EvRecv 2000) in
+  let l := [EvSentAE 2100; EvWake 6000 100; EvSentAE 6000; EvWake 7000 100; EvRecv 6100; EvBlocked 1; EvWake 10100 100; EvSentAE 10100; EvRecv 10200] in
+  hsComplete s0 = true /\ closeErr s0 = None /\ no_close_requests l /\ wakes_in_time s0 l /\ kaSent (run s0 [EvSentAE 2100; EvWake 6000 100]) = true.
+Proof.
+  cbv zeta. split; [reflexivity|]. split; [reflexivity|]. split; [repeat constructor|]. split; [|reflexivity].
+  intros l1 now pto l2 E.
+  repeat (destruct l1 as [|? l1]; [inversion E; subst; vm_compute; reflexivity | inversion E; subst; clear E;
+          match goal with H : _ = _ ++ _ :: _ |- _ => rename H into E end]).
+  all: try (destruct l1; discriminate).
+Qed.
+Print Assumptions C17_keepalive_history_example.
 
 (** applyTP (Go: applyTransport-Params) yields 0 <= keepAliveInterval <= idleTimeout/2, so the PING leaves half of the period for its answer *)
 Theorem C17_keepalive_interval : forall s p a pto, 0 <= c_maxIdleTimeout (cf s) -> 0 <= c_keepAlivePeriod (cf s) -> 0 <= pto ->
